@@ -216,6 +216,13 @@ def run_case(ctx, case):
                 ("insert-foreign-key+", lambda m: m.__setitem__(FOREIGN + "+", [1]), FOREIGN),
                 # ... and one whose value is an empty section
                 ("insert-foreign-key{}", lambda m: m.__setitem__(FOREIGN, {}), FOREIGN)]
+        if kind == "spec" and len(path) == 1 and _implied_base(shapes.get(path[0])) and str(get_at(obj, path).get("class_path", "")).endswith(".Base"):
+            # short form: class_path left out because the declared class is concrete; a foreign key beside init_args is still foreign
+            def short_form(m):
+                m.pop("class_path")
+                m.setdefault("init_args", {})
+                m[FOREIGN] = 1
+            muts.append(("insert-foreign-key-beside-init_args-of-short-form", short_form, FOREIGN))
         for r in required:
             if r == "class_path":
                 continue
@@ -263,6 +270,28 @@ def run_case(ctx, case):
                     ctx.cls("escape (C03)")
                 elif key not in r[1]:
                     ctx.finding(f"C06/{mname}/error-does-not-name-the-key/{where}", {"path": path, "key": key, "message": short(r[1], 300)})
+    # short form of a class spec (class_path implied by a concrete declared class): a foreign key beside init_args is still foreign
+    for name, shape in shapes.items():
+        if _implied_base(shape):
+            bad = copy.deepcopy(obj)
+            cur = bad
+            parts = name.split(".")
+            for q in parts[:-1]:
+                cur = cur.setdefault(q, {})
+            cur[parts[-1]] = {"init_args": {"p": 1}, FOREIGN: 1}
+            good = copy.deepcopy(bad)
+            get_at(good, parts).pop(FOREIGN)
+            if parse_via("object", recipe, good)[0] != "ok":
+                ctx.cls("short-form-spec-rejected (precondition)")
+                continue
+            for ch in ("object", "string", "--cfg string"):
+                ctx.evaluations += 1
+                r = parse_via(ch, recipe, bad)
+                ctx.cls(f"foreign-key-beside-init_args-of-short-form:{ch}:{r[0]}")
+                if r[0] == "ok":
+                    ctx.finding(f"C06/insert-foreign-key-beside-init_args-of-short-form/accepted/spec/{ch}", {"argument": name, "mutated": short(bad, 300)})
+                elif r[0] == "rej" and FOREIGN not in r[1]:
+                    ctx.finding(f"C06/insert-foreign-key-beside-init_args-of-short-form/error-does-not-name-the-key/spec/{ch}", {"argument": name, "message": short(r[1], 300)})
     # an argument whose type has no nested keys (scalars, lists, tuples, sets) does not accept one on the command line either
     if not sub:
         for name, shape, _h, _d in recipe["args"]:
@@ -294,6 +323,12 @@ def run_case(ctx, case):
             if r[0] == "ok":
                 ctx.finding(f"C06/remove-required-subcommand/accepted/{ch}", {"mutated": short(bad, 300)})
     ctx.sample()
+
+
+def _implied_base(shape):
+    while shape and shape[0] == "opt":
+        shape = shape[1]
+    return shape == ["cls", "Base"]
 
 
 class LinkedReq:
